@@ -16,11 +16,20 @@
 (* F.a / F.many in the same upgrade.                                        *)
 (*                                                                         *)
 (* Steps: Uninstall(app), DropModel(app, model) (models.py loses the model, *)
-(* the app gains an evolution DeleteModel), Evolve(purge).                  *)
+(* the app gains an evolution DeleteModel), Evolve(purge); and a fault:     *)
+(* Tamper(t) - somebody dropped a stale app's table by hand, so the purge   *)
+(* fails on its DROP TABLE - with Repair (the table is put back).  A failed *)
+(* purge leaves tables AND stored signature as they were, so that the purge *)
+(* can be repeated.                                                         *)
 (***************************************************************************)
 EXTENDS Naturals, Sequences, FiniteSets, TLC, Json
 
-CONSTANTS MaxOps, EmitRecords,
+CONSTANTS MaxOps, EmitRecords, WithFaults,
+          PurgeAtomic,           \* TRUE: a failing purge changes nothing (the design)
+                                 \* FALSE: every stale app is purged in a transaction of its own, so the
+                                 \*        apps purged BEFORE the failing one stay dropped, while the
+                                 \*        stored signature - saved at the very end - still names them
+                                 \*        (as the code is; open finding)
           PurgeRemovesAppSig     \* TRUE: a purged app leaves the stored signature (as repaired, ce736c3)
                                  \* FALSE: its emptied entry stays (as found)
 
@@ -31,9 +40,10 @@ VARIABLES feats,      \* chosen optional relations
           tables,     \* tables in the database
           sig,        \* stored signature: app -> set of model names
           refsGone,   \* r.F's relations into p have been deleted by r's own evolution
+          missing,    \* tables of a stale app that were dropped by hand (fault)
           hist        \* operations so far
 
-vars == <<feats, installed, models, pendDel, tables, sig, refsGone, hist>>
+vars == <<feats, installed, models, pendDel, tables, sig, refsGone, missing, hist>>
 
 Apps == {"p", "pq", "r"}
 (* customM2M (only together with ownM2M): A.rel is declared with db_table = 'p_links', and the
@@ -63,11 +73,13 @@ Init == /\ feats \in { fs \in SUBSET Feats : "customM2M" \in fs => "ownM2M" \in 
         /\ tables = UNION { OwnedByApp(a, AllModels[a], feats) : a \in Apps }
         /\ sig = AllModels
         /\ refsGone = FALSE
+        /\ missing = {}
         /\ hist = <<>>
 
 Log(op) == hist' = Append(hist, op)
 
 Uninstall(a) ==
+    /\ missing = {}
     /\ a \in installed /\ Cardinality(installed) > 1
     /\ \A d \in pendDel : d[1] # a
     \* r refers to p (r.F -> p.A, and p.A -> r.C): r can only go together with p's relation,
@@ -75,10 +87,11 @@ Uninstall(a) ==
     /\ (a = "r" => ("p" \notin installed \/ "farM2M" \notin feats))
     /\ installed' = installed \ {a}
     /\ Log([op |-> "uninstall", app |-> a])
-    /\ UNCHANGED <<feats, models, pendDel, tables, sig, refsGone>>
+    /\ UNCHANGED <<feats, models, pendDel, tables, sig, refsGone, missing>>
 
 (* a model leaves models.py; the app's next evolution is DeleteModel(m) *)
 DropModel(a, m) ==
+    /\ missing = {}
     /\ a \in installed /\ m \in models[a]
     \* only models nothing else (still present) refers to
     /\ ~(m = "A" /\ a = "p" /\ "r" \in installed /\ RefsIntoP(feats) # {} /\ "F" \in models["r"])
@@ -87,10 +100,11 @@ DropModel(a, m) ==
     /\ models' = [models EXCEPT ![a] = @ \ {m}]
     /\ pendDel' = pendDel \cup {<<a, m>>}
     /\ Log([op |-> "dropmodel", app |-> a, model |-> m])
-    /\ UNCHANGED <<feats, installed, tables, sig, refsGone>>
+    /\ UNCHANGED <<feats, installed, tables, sig, refsGone, missing>>
 
 (* every model of an app leaves models.py at once (the app stays installed, model-less) *)
 DropAll(a) ==
+    /\ missing = {}
     /\ a \in installed /\ models[a] = AllModels[a]
     /\ \/ a = "pq"
        \/ (a = "p" /\ (RefsIntoP(feats) = {} \/ "r" \notin installed \/ "F" \notin models["r"]))
@@ -98,7 +112,7 @@ DropAll(a) ==
     /\ models' = [models EXCEPT ![a] = {}]
     /\ pendDel' = pendDel \cup { <<a, m>> : m \in models[a] }
     /\ Log([op |-> "dropall", app |-> a])
-    /\ UNCHANGED <<feats, installed, tables, sig, refsGone>>
+    /\ UNCHANGED <<feats, installed, tables, sig, refsGone, missing>>
 
 (* As found: within one upgrade the apps' evolutions run in INSTALLED_APPS order
    (p before r) and the purges afterwards, in signature order (p before r).  Once
@@ -119,6 +133,33 @@ RefOrderHazard(dels, purged) ==
        \* then has to delete A, whose relation names r.C
        \/ /\ "farM2M" \in feats /\ cByEvo /\ aByPurge
 
+RECURSIVE SetToSeq(_)
+SetToSeq(S) == IF S = {} THEN <<>> ELSE LET x == CHOOSE y \in S : TRUE IN <<x>> \o SetToSeq(S \ {x})
+(* stale apps are purged in the order the signature lists them: the order of installation *)
+AppRank(a) == CASE a = "p" -> 1 [] a = "pq" -> 2 [] OTHER -> 3
+
+(* the evolutions of the installed apps have nothing left to do *)
+NothingPending ==
+    /\ { d \in pendDel : d[1] \in installed } = {}
+    /\ ~("p" \notin installed /\ "r" \in installed /\ "F" \in models["r"]
+          /\ RefsIntoP(feats) # {} /\ ~refsGone)
+StaleTables == UNION { OwnedByApp(a, sig[a], feats) : a \in (DOMAIN sig) \ installed }
+
+(* fault: one table of a stale app is dropped behind the tool's back *)
+Tamper(t) ==
+    /\ missing = {} /\ NothingPending
+    /\ t \in StaleTables \cap tables
+    /\ tables' = tables \ {t}
+    /\ missing' = {t}
+    /\ Log([op |-> "tamper", table |-> t])
+    /\ UNCHANGED <<feats, installed, models, pendDel, sig, refsGone>>
+Repair ==
+    /\ missing # {}
+    /\ tables' = tables \cup missing
+    /\ missing' = {}
+    /\ Log([op |-> "repair"])
+    /\ UNCHANGED <<feats, installed, models, pendDel, sig, refsGone>>
+
 (* one upgrade run *)
 Evolve(purge) ==
     LET dels    == { d \in pendDel : d[1] \in installed }
@@ -134,13 +175,28 @@ Evolve(purge) ==
                    THEN [a \in (DOMAIN s1) \ purged |-> s1[a]]
                    ELSE [a \in DOMAIN s1 |-> IF a \in purged THEN {} ELSE s1[a]]
     IN IF RefOrderHazard(dels, purged)
-       THEN /\ Log([op |-> "evolve", purge |-> purge, refused |-> TRUE])
-            /\ UNCHANGED <<feats, installed, models, tables, sig, pendDel, refsGone>>
+       THEN /\ Log([op |-> "evolve", purge |-> purge, refused |-> TRUE, failed |-> FALSE, partial |-> <<>>])
+            /\ UNCHANGED <<feats, installed, models, tables, sig, pendDel, refsGone, missing>>
+       ELSE IF missing \cap UNION { OwnedByApp(a, sig[a], feats) : a \in purged } # {}
+       \* DROP TABLE of a table that is not there: the purge fails; what is stored still
+       \* names the app, so that the purge can be run again
+       THEN LET bad(a) == missing \cap OwnedByApp(a, sig[a], feats) # {}
+                failing == CHOOSE a \in purged : bad(a) /\ \A b \in purged : bad(b) => AppRank(a) <= AppRank(b)
+                earlier == { b \in purged : AppRank(b) < AppRank(failing) /\ sig[b] # {} }
+            IN /\ Log([op |-> "evolve", purge |-> purge, refused |-> FALSE, failed |-> TRUE,
+                        partial |-> IF PurgeAtomic THEN <<>> ELSE SetToSeq(earlier)])
+               /\ tables' = IF PurgeAtomic THEN tables
+                             ELSE tables \ UNION { OwnedByApp(b, sig[b], feats) : b \in earlier }
+               \* ... and from then on those tables are missing although the signature names them
+               /\ missing' = IF PurgeAtomic THEN missing
+                              ELSE missing \cup (tables \cap UNION { OwnedByApp(b, sig[b], feats) : b \in earlier })
+               /\ UNCHANGED <<feats, installed, models, sig, pendDel, refsGone>>
        ELSE /\ tables' = t3
+            /\ missing' = missing
             /\ sig' = s2
             /\ pendDel' = pendDel \ dels
             /\ refsGone' = (refsGone \/ dropRefs)
-            /\ Log([op |-> "evolve", purge |-> purge, refused |-> FALSE])
+            /\ Log([op |-> "evolve", purge |-> purge, refused |-> FALSE, failed |-> FALSE, partial |-> <<>>])
             /\ UNCHANGED <<feats, installed, models>>
 
 Next == /\ Len(hist) < MaxOps
@@ -148,6 +204,8 @@ Next == /\ Len(hist) < MaxOps
            \/ \E a \in Apps : \E m \in AllModels[a] : DropModel(a, m)
            \/ \E a \in Apps : DropAll(a)
            \/ \E b \in BOOLEAN : Evolve(b)
+           \/ (WithFaults /\ \E t \in StaleTables : Tamper(t))
+           \/ (WithFaults /\ Repair)
 
 Spec == Init /\ [][Next]_vars
 
@@ -165,7 +223,18 @@ NoPurgeKeepsEverything ==
               /\ OwnedByApp(a, sig[a], feats) \cap tables \subseteq tables'
               /\ a \in DOMAIN sig' /\ sig'[a] = sig[a] ]_vars
 (* with --purge exactly the stale apps' tables and signature entries go *)
-Refused == hist'[Len(hist')].op = "evolve" /\ hist'[Len(hist')].refused
+Refused == hist'[Len(hist')].op = "evolve" /\ (hist'[Len(hist')].refused \/ hist'[Len(hist')].failed)
+(* a purge that fails changes neither the tables nor what the stored signature says:
+   what is stored keeps describing what is there *)
+FailedPurgeChangesNothing ==
+    [][ (PurgeAtomic /\ hist' # hist /\ hist'[Len(hist')].op = "evolve" /\ hist'[Len(hist')].failed)
+          => (tables' = tables /\ sig' = sig) ]_vars
+(* whatever happened, every table of an app the signature no longer names is gone, unless
+   it was put back by hand: the signature never forgets an app whose tables are still there *)
+SigForgetsOnlyDroppedApps ==
+    \A a \in Apps \ installed : a \notin DOMAIN sig =>
+        OwnedByApp(a, AllModels[a], feats) \cap tables \subseteq
+            UNION { OwnedByApp(b, AllModels[b], feats) : b \in installed }
 PurgeDropsExactlyOwned ==
     [][ ((\E x \in {TRUE} : Evolve(x)) /\ ~Refused) =>
           \A a \in (DOMAIN sig) \ installed :
@@ -175,9 +244,6 @@ PurgeDropsExactlyOwned ==
 SigMatchesAfterPurge ==
     [][ ((\E x \in {TRUE} : Evolve(x)) /\ ~Refused) =>
           (PurgeRemovesAppSig => DOMAIN sig' \subseteq installed) ]_vars
-
-RECURSIVE SetToSeq(_)
-SetToSeq(S) == IF S = {} THEN <<>> ELSE LET x == CHOOSE y \in S : TRUE IN <<x>> \o SetToSeq(S \ {x})
 
 Emit == (EmitRecords /\ hist # <<>> /\ hist[Len(hist)].op = "evolve") =>
           PrintT(<<"REC", ToJson([feats |-> SetToSeq(feats), hist |-> hist,
